@@ -44,6 +44,8 @@ type sessOp struct {
 type sessCase struct {
 	Preempt bool     `json:"preempt"`
 	Ops     []sessOp `json:"ops"`
+	// C20 only: a listener-level case (the whole server with TCP / WebSocket listeners), see c20srv.go
+	Listener *lisCase `json:"listener,omitempty"`
 }
 
 type sessStep struct {
@@ -55,6 +57,7 @@ type sessStep struct {
 
 type sessObs struct {
 	Steps []sessStep `json:"steps"`
+	Lis   *lisObs    `json:"lis,omitempty"`
 	Err   string     `json:"err,omitempty"`
 }
 
@@ -214,7 +217,7 @@ func (r *sessRun) collect() [][4]int {
 					// every subscription of a v5 client carries the identifier topic+1: it has to come back
 					// with the message (also from a session restored after a restart)
 					var tn int
-					fmt.Sscanf(m.Topic(), "t/%d", &tn)
+					tn = sessTopicNum(m.Topic())
 					ids := subIDs(a.PubRaw[r.seenPubs[cid]+j])
 					if len(ids) != 1 || ids[0] != tn+1 {
 						bad = 9
@@ -303,6 +306,10 @@ func optZ(v int64) string {
 
 func (p *sessProp) Run(ci interface{}) interface{} {
 	c := ci.(*sessCase)
+	if c.Listener != nil {
+		lo, msg := runListener(c.Listener)
+		return &sessObs{Lis: lo, Err: msg}
+	}
 	r := &sessRun{c: c, obs: &sessObs{}, cur: map[int]*Auto{}, curCid: map[int]int{}, all: map[int]*Auto{}, seenPubs: map[int]int{}, seenClose: map[int]bool{}, ended: map[int]time.Time{}}
 	if err := r.startBroker(); err != nil {
 		r.obs.Err = err.Error()
@@ -391,7 +398,7 @@ func (p *sessProp) Run(ci interface{}) interface{} {
 				sopts |= 0x04
 				nl = 1
 			}
-			sp := mkSubscribe(a.Ver, uint16(k+1), []string{fmt.Sprintf("t/%d", op.T)}, []byte{sopts})
+			sp := mkSubscribe(a.Ver, uint16(k+1), []string{sessTopic(op.T)}, []byte{sopts})
 			if a.Ver == mqttp.ProtocolV50 {
 				_ = sp.PropertySet(mqttp.PropertySubscriptionIdentifier, uint32(op.T+1))
 			}
@@ -421,7 +428,7 @@ func (p *sessProp) Run(ci interface{}) interface{} {
 			if op.Op == "unretain" {
 				payload = []byte{}
 			}
-			_ = pb.SendL(mkPublish(pb.Ver, fmt.Sprintf("t/%d", op.T), payload, 1, op.Op != "pub", uint16(k+1)))
+			_ = pb.SendL(mkPublish(pb.Ver, sessTopic(op.T), payload, 1, op.Op != "pub", uint16(k+1)))
 			if !pb.WaitFor(5*time.Second, func() bool {
 				j := 0
 				for _, o := range pb.Others {
@@ -457,7 +464,7 @@ func (p *sessProp) Run(ci interface{}) interface{} {
 				continue
 			}
 			n := a.CountOthers(mqttp.PUBACK)
-			_ = a.SendL(mkPublish(a.Ver, fmt.Sprintf("t/%d", op.T), []byte{byte(k + 1)}, 1, false, uint16(1000+k)))
+			_ = a.SendL(mkPublish(a.Ver, sessTopic(op.T), []byte{byte(k + 1)}, 1, false, uint16(1000+k)))
 			if !a.WaitFor(5*time.Second, func() bool {
 				j := 0
 				for _, o := range a.Others {
@@ -648,11 +655,26 @@ func (p *sessProp) Coq(ci interface{}, oi interface{}) string {
 		}
 		steps[i] = fmt.Sprintf("(mkStep %s %s %s %d%%N)", s.Ev, cList(it), cList(s.Race), s.Ign)
 	}
-	return fmt.Sprintf("(mkCase %s %s %s)", cBool(c.Preempt), cList(steps), cBool(o.Err == ""))
+	lis := "None"
+	if c.Listener != nil && o.Lis != nil {
+		ks := make([]string, len(c.Listener.Conns))
+		for i, k := range c.Listener.Conns {
+			ks[i] = fmt.Sprintf("%d%%N", k)
+		}
+		cl := make([]string, len(o.Lis.Closed))
+		for i, b := range o.Lis.Closed {
+			cl[i] = cBool(b)
+		}
+		lis = fmt.Sprintf("(Some (mkLis %s %s %s %s %s))", cList(ks), cBool(o.Lis.Returned), cList(cl), cBool(o.Lis.AcceptsAfter), cBool(o.Lis.LateConnack))
+	}
+	return fmt.Sprintf("(mkCase %s %s %s %s)", cBool(c.Preempt), cList(steps), cBool(o.Err == ""), lis)
 }
 
 func (p *sessProp) Class(ci interface{}, oi interface{}) (string, bool) {
 	c := ci.(*sessCase)
+	if c.Listener != nil {
+		return "listener", true
+	}
 	timed, recon, wills := false, 0, false
 	for _, op := range c.Ops {
 		if op.Op == "wait" {
@@ -879,4 +901,20 @@ func (r *sessRun) race(k int, op sessOp) string {
 		return fmt.Sprintf("step %d: %d connections stay attached to one client identifier", k, len(l))
 	}
 	return ""
+}
+
+// topic numbers of the session histories: 0, 1 ordinary; 2 has an empty first level (leading slash)
+func sessTopic(t int) string {
+	if t == 2 {
+		return "/t/2"
+	}
+	return fmt.Sprintf("t/%d", t)
+}
+
+func sessTopicNum(topic string) int {
+	var n int
+	if i := strings.LastIndex(topic, "/"); i >= 0 {
+		fmt.Sscanf(topic[i+1:], "%d", &n)
+	}
+	return n
 }
